@@ -73,10 +73,11 @@ where
     D: serde::Deserializer<'de>,
 {
     let s: &'de str = Deserialize::deserialize(deserializer)?;
-    // String::from(s) could panic and is not really infallibe.  It is removed in heapless 0.8.
-    #[allow(clippy::unnecessary_fallible_conversions)]
-    match String::try_from(s) {
-        Ok(string) => Ok(Some(string)),
+    // String::try_from(s) is the blanket impl over the panicking From<&str> in heapless 0.7,
+    // so build the string with the fallible push_str instead.
+    let mut string = String::new();
+    match string.push_str(s) {
+        Ok(()) => Ok(Some(string)),
         Err(_err) => {
             info_now!("skipping field: {:?}", _err);
             Ok(None)
